@@ -65,6 +65,8 @@ VIEW_CALLS = ("reshape", "view", "ravel", "squeeze", "transpose", "swapaxes", "_
 
 def _is_view_call(call):
     name = dotted(call.func) or ""
+    if name == "getattr":
+        return True          # hands out the attribute itself
     return name in VIEW_CALLS or name.split(".")[-1] in ("reshape", "view", "ravel", "squeeze", "transpose", "swapaxes")
 
 
@@ -82,6 +84,15 @@ def _alias_sources(value, s, aliases):
         return {a}
     if isinstance(value, ast.Name) and value.id in aliases:
         return set(aliases[value.id])
+    # the attributes of a shallow clone of self are the very objects self holds (until they are re-bound on the clone)
+    clones = aliases.get("\0clones", {})
+    if isinstance(value, ast.Attribute) and isinstance(value.value, ast.Name) and value.value.id in clones \
+            and value.attr not in clones[value.value.id]:
+        return {value.attr}
+    if isinstance(value, ast.Call) and dotted(value.func) == "getattr" and len(value.args) >= 2 and isinstance(value.args[0], ast.Name) \
+            and (value.args[0].id in clones or value.args[0].id == s):
+        k = value.args[1]
+        return {k.value if isinstance(k, ast.Constant) and isinstance(k.value, str) else "*"}
     if isinstance(value, ast.Subscript):          # basic slicing gives a view
         return _alias_sources(value.value, s, aliases)
     if isinstance(value, ast.Attribute) and value.attr == "T":
@@ -93,12 +104,40 @@ def _alias_sources(value, s, aliases):
     return out
 
 
+def shallow_clones(f, s):
+    """{local name: attributes re-bound on it to the result of a call} for locals that are shallow clones of self:
+         c = copy.copy(self) / c = self.copy_shallow...   (module-level copy.copy only)
+         for n in ...: setattr(c, n, getattr(self, n, ...))     the slot-by-slot clone
+         c.__dict__.update(self.__dict__)"""
+    out = {}
+    for n in walk_no_nested(f):
+        if isinstance(n, ast.Assign) and len(n.targets) == 1 and isinstance(n.targets[0], ast.Name) and isinstance(n.value, ast.Call):
+            name = dotted(n.value.func) or ""
+            if name.split(".")[-1] == "copy" and name.split(".")[0] in ("copy", "_co", "_cp", "_copy") and n.value.args \
+                    and isinstance(n.value.args[0], ast.Name) and n.value.args[0].id == s:
+                out.setdefault(n.targets[0].id, set())
+        if isinstance(n, ast.Call) and dotted(n.func) == "setattr" and len(n.args) == 3 and isinstance(n.args[0], ast.Name) and n.args[0].id != s:
+            v = n.args[2]
+            if isinstance(v, ast.Call) and dotted(v.func) == "getattr" and len(v.args) >= 2 and isinstance(v.args[0], ast.Name) and v.args[0].id == s \
+                    and ast.dump(v.args[1]) == ast.dump(n.args[1]):
+                out.setdefault(n.args[0].id, set())
+        if isinstance(n, ast.Call) and isinstance(n.func, ast.Attribute) and n.func.attr == "update" and (dotted(n.func.value) or "").endswith(".__dict__") \
+                and n.args and dotted(n.args[0]) == f"{s}.__dict__" and isinstance(n.func.value.value, ast.Name):
+            out.setdefault(n.func.value.value.id, set())
+    for n in walk_no_nested(f):
+        if isinstance(n, ast.Assign) and isinstance(n.value, ast.Call) and not _is_view_call(n.value):
+            for t in n.targets:
+                if isinstance(t, ast.Attribute) and isinstance(t.value, ast.Name) and t.value.id in out:
+                    out[t.value.id].add(t.attr)
+    return out
+
+
 def direct_mutations(f):
     """[(attr, how, lineno)] for one function"""
     s = _self_name(f)
     if s is None:
         return []
-    aliases = {}
+    aliases = {"\0clones": shallow_clones(f, s)}
     for _ in range(3):
         for n in walk_no_nested(f):
             if isinstance(n, ast.Assign) and len(n.targets) == 1:
@@ -118,10 +157,14 @@ def direct_mutations(f):
     def target_attrs(t, node):
         """attributes written by a store to target t"""
         b, through = t, False
+        clones = aliases["\0clones"]
         while isinstance(b, (ast.Subscript, ast.Attribute)):
             a = _is_self_attr(b, s)
             if a is not None:
                 return {a}, ("cell store" if b is not t else "rebinding")
+            if isinstance(b, ast.Attribute) and isinstance(b.value, ast.Name) and b.value.id in clones and b.attr not in clones[b.value.id] \
+                    and (b is not t or isinstance(node, ast.AugAssign)):
+                return {b.attr}, f"{'cell store' if b is not t else 'in-place ' + type(node.op).__name__} through the shallow clone {b.value.id}"
             if isinstance(b, ast.Subscript):
                 through = True
             b = b.value
@@ -144,7 +187,7 @@ def direct_mutations(f):
         if isinstance(n, ast.Call):
             if isinstance(n.func, ast.Attribute) and n.func.attr in INPLACE_METHODS:
                 src = _alias_sources(n.func.value, s, {k: v for k, v in aliases.items()
-                                                       if not (isinstance(n.func.value, ast.Name) and _dominating_call_rebind(n, k, f))})
+                                                       if k == "\0clones" or not (isinstance(n.func.value, ast.Name) and _dominating_call_rebind(n, k, f))})
                 for a in src:
                     out.append((a, f"in-place method .{n.func.attr}()", n.lineno))
             for k in n.keywords:
